@@ -3,12 +3,11 @@ C06 — property theorems (sparse matrices and linear operators).
 Helper lemmas live in OFV/Proofs/C06*.lean.  Every theorem is audited with `#print axioms`.
 The Model functions named here are the ones `ofv-driver` executes in the correspondence run.
 
-Proved end-to-end for one term: `qubit_term_matrix_sound` (the Kronecker chain of a Pauli string is
-its matrix in the big-endian basis, all register sizes).  Not proved (see OPEN_STATEMENTS in
-harness/c06.py): the coordinate assembly over several terms (`qubitTermTriplets` with the swapped
-`nonzero()` order) and the product of ladder matrices over a fermionic term (`jw_sparse_sound`;
-each ladder matrix is proved: `jw_ladder_sound`); they are covered by the exact correspondence run
-and the Spec oracle.
+Proved end to end: `qubit_sparse_sound` (Kronecker chains, the swapped `(column, row) = nonzero()`
+coordinate extraction — right because Pauli-string chains have a symmetric sparsity pattern and no
+explicit zeros —, duplicate summation), `jw_sparse_sound`, `matvec_*`, `diagonal_sound`,
+`parallel_*`.  Not proved (see OPEN_STATEMENTS in harness/c06.py): truncated boson / quadrature
+matrices and the scipy glue of expectation / variance / eigenspectrum (numeric correspondence).
 -/
 import OFV.Model.C06
 import OFV.Spec.C06
@@ -17,6 +16,8 @@ import OFV.Proofs.C06Kron
 import OFV.Proofs.C06Term
 import OFV.Proofs.C06Matvec
 import OFV.Proofs.C06Ladder
+import OFV.Proofs.C06JW
+import OFV.Proofs.C06Assembly
 
 namespace OFV.C06
 open OFV OFV.Spec OFV.Spec.C06 OFV.Model OFV.Model.C06 OFV.Proofs.C06
@@ -106,6 +107,34 @@ theorem jw_ladder_sound (n j ty : Nat) (hj : j < n) (ht : ty ≤ 1) (s u : Nat) 
 example : (jwLadder 3 1 1).get (beIndex 3 0b011) (beIndex 3 0b001) = -1 ∧ actF 1 1 0b001 = some (1, 0b011) := by
   refine ⟨by decide +kernel, by decide⟩
 
+/-- `jw_sparse_sound`, term level: the product `c·I · L_{f1} ⋯ L_{fk}` of ladder matrices formed by
+`jordan_wigner_sparse` for one term (`sparse_matrix = sparse_matrix * jw_operators[i][a]`) has at
+(row `beIndex n u`, column `beIndex n s`) the value `c · ⟨u| f1 ⋯ fk |s⟩` of the Spec (`actFTerm`),
+for every register size `n` above the modes and all basis states. -/
+theorem jw_term_matrix_sound (n : Nat) (c : GQ) (t : List (Nat × Nat)) (ht : ∀ f ∈ t, f.1 < n ∧ f.2 ≤ 1)
+    (s u : Nat) (hs : s < 2 ^ n) (hu : u < 2 ^ n) :
+    (t.foldl (fun M f => matMul M (jwLadder n f.1 f.2)) (scaleMat c (identity (2 ^ n)))).get
+      (beIndex n u) (beIndex n s) =
+      c * (match actFTerm t s with
+           | none => 0
+           | some (k, s') => if s' = u then GQ.sgn k else 0) :=
+  jwTerm_get n c t ht s u hs hu
+
+/-- `jw_sparse_sound`, whole operator: the matrix returned by the Model of `jordan_wigner_sparse(op, n)`
+(zero-coefficient terms skipped, triplets concatenated, duplicates summed, zeros eliminated) is
+`2^n × 2^n` and its dense entry at (row `beIndex n u`, column `beIndex n s`) is the matrix element
+`Σ_terms c · ⟨u| t |s⟩` of the operator. -/
+theorem jw_sparse_sound (n : Nat) (a : List (List (Nat × Nat) × GQ)) (ha : ∀ e ∈ a, ∀ f ∈ e.1, f.1 < n ∧ f.2 ≤ 1)
+    (s u : Nat) (hs : s < 2 ^ n) (hu : u < 2 ^ n) :
+    (jordanWignerSparse (some n) a).1 = 2 ^ n ∧
+    getL (jordanWignerSparse (some n) a).2 (beIndex n u) (beIndex n s) =
+      a.foldl (fun acc e => acc + e.2 * ampFG e.1 s u) 0 :=
+  jwSparse_get n a ha s u hs hu
+
+example : ([(1, 1), (0, 0)].foldl (fun M f => matMul M (jwLadder 2 f.1 f.2)) (scaleMat ⟨2, 0⟩ (identity (2 ^ 2)))).get
+      (beIndex 2 0b10) (beIndex 2 0b01) = ⟨2, 0⟩ ∧ actFTerm [(1, 1), (0, 0)] 0b01 = some (0, 0b10) := by
+  refine ⟨by decide +kernel, by decide⟩
+
 /-! ### coordinate assembly -/
 
 /-- `coo_assembly_sound`: the final `coo_matrix((values, (rows, cols))).tocsc()` +
@@ -117,6 +146,29 @@ theorem coo_assembly_sound (es : List (Nat × Nat × GQ)) (r c : Nat) :
   canonEntries_get es r c
 
 example : canonEntries [(1, 0, ⟨1, 0⟩), (0, 1, ⟨2, 0⟩), (1, 0, ⟨-1, 0⟩)] = [(0, 1, ⟨2, 0⟩)] := by decide +kernel
+
+/-- `coordinate_extraction_sound`: for every Pauli-string chain (any coefficient, any register size)
+the triplets `values = M.tocoo().data` (CSC order), `(column, row) = M.nonzero()` (row-major order,
+names swapped) that `qubit_operator_sparse` collects are exactly the entries of the term matrix:
+the two sorted index lists coincide because the pattern is symmetric and there are no explicit zeros. -/
+theorem coordinate_extraction_sound (n : Nat) (t : List (Nat × Nat)) (c : GQ) :
+    qubitTermTriplets (kronList (qubitTermFactors n t c)) =
+      some (sortBy keyCR (kronList (qubitTermFactors n t c)).entries) :=
+  qubitTermTriplets_chain n t c
+
+/-- the extraction is NOT right for a non-symmetric pattern (why the statement needs the Pauli structure) -/
+example : qubitTermTriplets ⟨2, 2, [(0, 1, 1)]⟩ = some [(1, 0, 1)] := by decide +kernel
+
+/-- `qubit_sparse_sound`, whole operator: for an operator of Pauli strings on qubits `< n` (and
+`count_qubits ≤ n`) the Model of `qubit_operator_sparse(op, n)` returns a `2^n × 2^n` matrix whose
+dense entry at (row `beIndex n u`, column `beIndex n s`) is the matrix element `Σ_terms c · ⟨u| t |s⟩`
+of the operator in the Spec, for all basis states. -/
+theorem qubit_sparse_sound (n : Nat) (a : List (List (Nat × Nat) × GQ)) (hc : countQubitsQubit a ≤ n)
+    (ha : ∀ e ∈ a, e.1.Pairwise (fun f g => f.1 < g.1) ∧ ∀ f ∈ e.1, f.1 < n ∧ 1 ≤ f.2 ∧ f.2 ≤ 3)
+    (s u : Nat) (hs : s < 2 ^ n) (hu : u < 2 ^ n) :
+    ∃ L, qubitOperatorSparse (some n) a = some (2 ^ n, L) ∧
+      getL L (beIndex n u) (beIndex n s) = a.foldl (fun acc e => acc + e.2 * Spec.C07.ampP e.1 s u) 0 :=
+  qubitSparse_get n a hc ha s u hs hu
 
 /-! ### `LinearQubitOperator._matvec` -/
 
@@ -173,6 +225,28 @@ theorem diagonal_term_sound (n : Nat) (t : List (Nat × Nat))
 
 example : diagTerm 2 [(1, 3)] = some [1, -1, 1, -1] ∧ diagTerm 2 [(0, 1), (1, 3)] = none := by
   refine ⟨by decide +kernel, by decide +kernel⟩
+
+/-- `diagonal_sound`: for an operator of Pauli strings on qubits `< n` (and `count_qubits ≤ n`),
+`get_linear_qubit_operator_diagonal(op, n)` succeeds, has length `2^n`, and its entry at `beIndex n s`
+is the diagonal matrix element `Σ_terms c · ⟨s| t |s⟩` of the operator, for every basis state `s < 2^n`
+(terms with `X` / `Y` contribute 0 because they move every basis state). -/
+theorem diagonal_sound (n : Nat) (a : List (List (Nat × Nat) × GQ)) (hc : countQubitsQubit a ≤ n)
+    (ha : ∀ e ∈ a, e.1.Pairwise (fun f g => f.1 < g.1) ∧ ∀ f ∈ e.1, f.1 < n ∧ 1 ≤ f.2 ∧ f.2 ≤ 3)
+    (s : Nat) (hs : s < 2 ^ n) :
+    ∃ v, linearDiagonal (some n) a = some v ∧ v.length = 2 ^ n ∧
+      v.getD (beIndex n s) 0 = a.foldl (fun acc e => acc + e.2 * Spec.C07.ampP e.1 s s) 0 := by
+  have h := diag_fold n a ha s hs (List.replicate (2 ^ n) 0) (by simp)
+  have hz : (List.replicate (2 ^ n) (0 : GQ)).getD (beIndex n s) 0 = 0 := by
+    simp [List.getD_eq_getElem?_getD, List.getElem?_replicate, beIndex_lt n s]
+  rw [hz] at h
+  refine ⟨_, ?_, h.1, h.2⟩
+  unfold linearDiagonal
+  have : ¬ n < countQubitsQubit a := by omega
+  simp only [Option.getD_some, this, if_false]
+  rfl
+
+example : linearDiagonal (some 2) [([(0, 3)], ⟨1, 1⟩), ([(0, 1), (1, 3)], 1), ([], ⟨2, 0⟩)] =
+    some [⟨3, 1⟩, ⟨3, 1⟩, ⟨1, -1⟩, ⟨1, -1⟩] := by decide +kernel
 
 /-! ### `ParallelLinearQubitOperator`: the groups together are the whole operator -/
 
